@@ -44,8 +44,13 @@ def addKid (kids : List Node) (n : Node) : List Node :=
   | _, _ => kids ++ [n]
 
 inductive SyncType where
-  | normal | wbxml | cdata
+  | normal | wbxml | clear | vobject
   deriving Repr, DecidableEq
+
+/-- The types for which both tree builders open a CDATA section. -/
+def SyncType.isCdata : SyncType → Bool
+  | .clear | .vobject => true
+  | _ => false
 
 def Node.eltName? : Node → Option Bytes
   | .elt n _ _ => some n.xmlName
@@ -71,10 +76,10 @@ def mimeType (v : Bytes) : Option SyncType :=
   else if v == b!"application/vnd.syncml-devinf+xml" then some .normal
   else if v == b!"application/vnd.syncml.dmtnds+wbxml" then some .wbxml
   else if v == b!"application/vnd.syncml.dmtnds+xml" then some .normal
-  else if v == b!"text/clear" then some .cdata
-  else if v == b!"text/directory;profile=vCard" then some .cdata
-  else if v == b!"text/x-vcard" then some .cdata
-  else if v == b!"text/x-vcalendar" then some .cdata
+  else if v == b!"text/clear" then some .clear
+  else if v == b!"text/directory;profile=vCard" then some .vobject
+  else if v == b!"text/x-vcard" then some .vobject
+  else if v == b!"text/x-vcalendar" then some .vobject
   else none
 
 /-- View of the open frames below `stack`'s top as the C code sees them through `parent` /
@@ -121,7 +126,7 @@ def syncmlDataType (stack : List Frame) : SyncType :=
         match more with
         | gp :: _ =>
           (match gp.eltName? with
-           | some n => if n == b!"Add" || n == b!"Replace" then .cdata else .normal
+           | some n => if n == b!"Add" || n == b!"Replace" then .vobject else .normal
            | none => .normal)
         | [] => .normal
     else .normal
@@ -178,13 +183,14 @@ def buildStep (main : List Lang) (embedded : Nat → Bytes → Option Tree) (b :
       (match embedded b.charset s with
        | some t => b.attach (.tree t.lang t.origCharset t.root)
        | none => b.attach (.text s))
-    | .cdata =>
+    | .normal => b.attach (.text s)
+    | _ =>
+      -- text/clear and the vObject types: one CDATA section per element
       (match b.stack with
        | f :: _ =>
          (match f.kind with
           | .cdata => b.attach (.text s)
           | _ => ({ b with stack := { kind := .cdata, kids := [] } :: b.stack } : BState).attach (.text s))
        | [] => b.attach (.text s))
-    | .normal => b.attach (.text s)
 
 end Wbxml.Model
